@@ -79,6 +79,40 @@ class RtWorld:
         self.problems: list[dict] = []
         self.mutated = False
         self.expect_not_wf = False
+        self.outside_model = None                # why this world has no Coq case (file rewritten / second DatabaseAPI)
+        self.tmp = None
+        self.file_model: dict[int, int] = {}     # slot -> model the file describes now
+        self.other_api = None
+
+    # ---- settings files: <tmp>/d<slot>/model.json, the same basename in every directory
+    def path_of(self, slot: int) -> str:
+        import os, tempfile
+        if self.tmp is None:
+            self.tmp = tempfile.mkdtemp(prefix="c07rt_")
+        d = os.path.join(self.tmp, f"d{slot}")
+        os.makedirs(d, exist_ok=True)
+        return os.path.join(d, "model.json")
+
+    def write_file(self, slot: int, model: int):
+        import json
+        if slot in self.file_model and self.file_model[slot] != model:
+            self.outside_model = "settings file rewritten between calls (Model/Cache.v: RStr p stands for one fixed content)"
+        with open(self.path_of(slot), "w") as f:
+            json.dump(plain_dict(model, self.api.sql_dialect.sql_dialect_str), f)
+        self.file_model[slot] = model
+        self.log.append(("write_file", slot, model))
+
+    def second_api(self):
+        """A second DatabaseAPI of the other dialect in the same process (the SQL cache is module-global)."""
+        if self.other_api is None:
+            self.other_api = su.make_api("sqlite" if self.backend == "duckdb" else "duckdb")
+            self.outside_model = "second DatabaseAPI of another dialect (the model has no dialect component)"
+        return self.other_api
+
+    def close(self):
+        import shutil
+        if self.tmp:
+            shutil.rmtree(self.tmp, ignore_errors=True)
 
     # ---- objects
     def token(self, obj) -> int:
@@ -121,12 +155,19 @@ class RtWorld:
         return addr
 
     # ---- calls
-    def call(self, kind: str, ident, use_cache: bool, flag: bool, pair=(0, 1), reference: bool = True):
-        """kind: 'obj' (ident = gen), 'dict' (ident = model, plain values), 'cdict' (ident = model, creator objects)."""
+    def call(self, kind: str, ident, use_cache: bool, flag: bool, pair=(0, 1), reference: bool = True, other: bool = False):
+        """kind: 'obj' (ident = gen), 'dict' (ident = model, plain values), 'cdict' (ident = model, creator objects),
+        'str' / 'path' (ident = file slot; the settings argument is the file name as str / pathlib.Path).
+        other=True runs the call (and its reference) on the second DatabaseAPI."""
+        from pathlib import Path
         from splink.internals.realtime import compare_records
         a, b = RECS[pair[0]], RECS[pair[1]]
-        dialect = self.api.sql_dialect.sql_dialect_str
-        if kind == "obj":
+        api = self.second_api() if other else self.api
+        dialect = api.sql_dialect.sql_dialect_str
+        if kind in ("str", "path"):
+            settings, model = (self.path_of(ident) if kind == "str" else Path(self.path_of(ident))), self.file_model[ident]
+            term = f"(RStr {coq_nat(ident)})"
+        elif kind == "obj":
             settings, model = self.objs[ident], self.info[ident][1]
             term = f"(RObj {coq_nat(self.info[ident][0])} {coq_nat(ident)} {coq_nat(model)})"
         elif kind == "dict":
@@ -139,13 +180,13 @@ class RtWorld:
         ref_rows = None
         if reference:
             rg, _ = self.new_object(model)
-            ref_rows = result_rows(compare_records(a, b, self.objs[rg], self.api, use_sql_from_cache=False,
+            ref_rows = result_rows(compare_records(a, b, self.objs[rg], api, use_sql_from_cache=False,
                                                    include_found_by_blocking_rules=flag))
             self.events.append(f"(RtCall (RObj {coq_nat(self.info[rg][0])} {coq_nat(rg)} {coq_nat(model)}) false {coq_bool(flag)})")
             self.obs.append(f"(Some (true, {coq_bool(flag)}, false))")
             self.log.append(("ref", rg, model, flag))
             self.delete(rg)
-        res = compare_records(a, b, settings, self.api, use_sql_from_cache=use_cache, include_found_by_blocking_rules=flag)
+        res = compare_records(a, b, settings, api, use_sql_from_cache=use_cache, include_found_by_blocking_rules=flag)
         rows = result_rows(res)
         cached_path = res.physical_name.startswith("__splink__realtime_compare_records_")
         has_flag = bool(rows) and "found_by_blocking_rules" in rows[0]
@@ -159,10 +200,11 @@ class RtWorld:
                 d = {"why": "columns", "cached": sorted(set(rows[0]) - set(ref_rows[0])), "uncached": sorted(set(ref_rows[0]) - set(rows[0]))}
             if d is not None:
                 self.problems.append({"call": (kind, ident, use_cache, flag), "model": model, "cached_path": cached_path,
+                                      "dialect": dialect,
                                       "difference": d, "events_so_far": list(self.log)})
         self.events.append(f"(RtCall {term} {coq_bool(use_cache)} {coq_bool(flag)})")
         self.obs.append(f"(Some ({coq_bool(own)}, {coq_bool(has_flag)}, {coq_bool(cached_path)}))")
-        self.log.append(("call", kind, ident, use_cache, flag, {"cached_path": cached_path, "own": own}))
+        self.log.append(("call", kind, ident, use_cache, flag, {"cached_path": cached_path, "own": own, "dialect": dialect}))
         return cached_path
 
     def coq_case(self) -> str:
@@ -240,6 +282,47 @@ def scenario_creator_dicts(ctx: Ctx, backend: str, params: dict):
     return w
 
 
+def scenario_paths(ctx: Ctx, backend: str, params: dict):
+    """Settings given as file names (str and pathlib.Path): two files with the same basename in different directories
+    describe different models; str and Path of one file share an entry.  Inside the model (RStr p, p = the file)."""
+    w = RtWorld(backend, params)
+    w.write_file(0, 0)
+    w.write_file(1, 4)
+    w.write_file(2, 0 + N_MODELS)
+    for kind, slot, flag in [("str", 0, False), ("str", 1, False), ("path", 0, False), ("path", 1, False), ("str", 2, False),
+                             ("path", 2, True), ("str", 1, True), ("str", 0, False)]:
+        w.call(kind, slot, True, flag, pair=(0, 1 + slot))
+    return w
+
+
+def scenario_file_rewritten(ctx: Ctx, backend: str, params: dict):
+    """The settings file is replaced by another model between two cached calls with the same file name.  Outside the
+    model (no Coq case): judged by the uncached reference only."""
+    w = RtWorld(backend, params)
+    w.write_file(0, 0)
+    w.call("str", 0, True, False)
+    w.call("path", 0, True, False)
+    w.write_file(0, 4)
+    w.call("str", 0, True, False)
+    w.call("path", 0, True, False)
+    return w
+
+
+def scenario_two_apis(ctx: Ctx, backend: str, params: dict):
+    """The same settings (object, plain dict, creator dict, file) used on a DuckDBAPI and a SQLiteAPI in one process: the
+    module-global SQL cache is shared; only the object branch of _cache_id looks at the dialect.  Outside the model (no
+    Coq case): judged by the uncached reference on the same DatabaseAPI."""
+    w = RtWorld(backend, params)
+    w.second_api()
+    w.write_file(0, 2)
+    g, _ = w.new_object(2)
+    for kind, ident in [("obj", g), ("dict", 2), ("cdict", 2), ("str", 0), ("path", 0)]:
+        for other in (False, True, False, True):
+            w.call(kind, ident, True, False, other=other)
+        w.call(kind, ident, True, True, other=True)
+    return w
+
+
 def scenario_random(ctx: Ctx, backend: str, params: dict, n: int):
     rng = ctx.rng
     w = RtWorld(backend, params)
@@ -296,11 +379,15 @@ def realtime_stage(ctx: Ctx, fixes: dict):
         ctx.cov[f"realtime_id_reuse_achieved_{backend}"] = reused
         worlds.append(("creator_dicts", backend, scenario_creator_dicts(ctx, backend, params)))
         worlds.append(("mutation", backend, scenario_mutation(ctx, backend, params)))
+        worlds.append(("paths", backend, scenario_paths(ctx, backend, params)))
+        worlds.append(("file_rewritten", backend, scenario_file_rewritten(ctx, backend, params)))
+        worlds.append(("two_apis", backend, scenario_two_apis(ctx, backend, params)))
         for _ in range((3 if backend == "duckdb" else 1) if ctx.quick else (24 if backend == "duckdb" else 8)):
             worlds.append(("random", backend, scenario_random(ctx, backend, params, ctx.rng.randint(6, 10 if ctx.quick else 18))))
     ctx.obligation("realtime: a SettingsCreator address was reused after collection in at least one scenario (else the id() scenario is vacuous)",
                    any(ctx.cov.get(f"realtime_id_reuse_achieved_{b}") for b in ("duckdb", "sqlite")))
     reported = 0
+    per_kind: dict[str, int] = {}
     for kind, backend, w in worlds:
         ncalls = sum(1 for e in w.log if e[0] == "call")
         ctx.count_case(("realtime", kind, backend, tuple(map(str, w.log))), ncalls >= 3,
@@ -312,9 +399,15 @@ def realtime_stage(ctx: Ctx, fixes: dict):
                 ctx.hist("realtime_settings_kind", e[1])
         for pb in w.problems:
             reported += 1
-            if reported > 3:
+            per_kind[kind] = per_kind.get(kind, 0) + 1
+            if per_kind[kind] > 2:                  # at most two reports per scenario kind; every kind gets its own
                 break
             feats = {"scenario": "realtime_cache", "settings_kind": pb["call"][0]}
+            if kind == "file_rewritten" and pb["call"][0] in ("str", "path") and pb["cached_path"]:
+                feats = {"scenario": "realtime_settings_file_rewritten", "settings_kind": pb["call"][0],
+                         "served": "sql_of_previous_file_content"}
+            if kind == "two_apis":
+                feats = {"scenario": "realtime_two_database_apis", "settings_kind": pb["call"][0], "dialect": pb["dialect"]}
             if kind == "mutation" and not params["rp_content_in_key"]:
                 feats = {"scenario": "realtime_mutated_settings_object"}
             if not params["rp_flag_in_key"] and pb["difference"].get("why") == "columns":
@@ -325,6 +418,10 @@ def realtime_stage(ctx: Ctx, fixes: dict):
                            "specification": "identical to compare_records(..., use_sql_from_cache=False) on a settings object of its own",
                            "key_ingredients": params}, feats)
     ctx.obligation("oracle realtime: every call equals its uncached reference", reported == 0)
+    for _, _, w in worlds:
+        w.close()
+    ctx.cov["realtime_worlds_outside_model"] = sorted({f"{k}: {w.outside_model}" for k, _, w in worlds if w.outside_model})
+    worlds = [x for x in worlds if x[2].outside_model is None]
     terms = [w.coq_case() for _, _, w in worlds]
     bad, errs = ctx.eval_cases("C07_rt", RT_HEADER, terms, "rt_case", shard=20)
     ctx.obligation("correspondence realtime: (own SQL, flag, cached path) of every call equals rt_run on the extracted key ingredients; "
